@@ -170,9 +170,12 @@ theorem same_wakeRt {s s' : State} (h : wakeRt s = some s') : Same s s' := by
   unfold agRegister; same_tac2
 @[simp] theorem same_agNext (s : State) (n m : String) : Same s (agNext s n m) := by
   unfold agNext; same_tac2
-theorem same_wakeAgent {s s' : State} (h : wakeAgent s = some s') : Same s s' := by
+theorem same_wakeAgent {l : Bool} {s s' : State} (h : wakeAgent l s = some s') : Same s s' := by
   unfold wakeAgent at h; split at h <;> simp at h
   split at h <;> (simp at h; subst h; simp [Same])
+theorem same_renderWoken {l : Bool} {s s' : State} (h : renderWoken l s = some s') : Same s s' := by
+  unfold renderWoken at h; split at h <;> simp at h
+  subst h; simp [Same]
 @[simp] theorem same_agReport (s : State) (n c e m : String) : Same s (agReport s n c e m) := by
   unfold agReport; same_tac2
 
@@ -344,7 +347,7 @@ theorem sameO_shutResume (s : State) (n : Nat) : SameO s (shutResume s n) := by
   splits <;> simp_all [Same]
 theorem sameO_restoreResume (s : State) : SameO s (restoreResume s) := by
   unfold restoreResume; splits <;> simp_all [Same]
-theorem sameO_wakeMove (s : State) : SameO s (wakeMove s) := by
+theorem sameO_wakeMove (l : Bool) (s : State) : SameO s (wakeMove l s) := by
   intro s' h
   unfold wakeMove orElse' at h
   split at h
@@ -474,15 +477,19 @@ theorem transO_platformMove (lifo : Bool) (s : State) (hn : (callers s).Nodup) :
 
 theorem transO_progress (v : Nat) (s : State) (hn : (callers s).Nodup) : TransO s (progress v s) := by
   have hp := fun l => transO_platformMove l s hn
-  have hw := TransO.of_sameO (sameO_wakeMove s)
+  have hw := fun l => TransO.of_sameO (sameO_wakeMove l s)
   have hk := TransO.of_sameO (sameO_killMove s)
+  have hr : ∀ l, TransO s (renderWoken l s) := fun l => TransO.of_sameO (fun s' h => same_renderWoken h)
   unfold progress
   splits <;> first
     | exact transO_none _
     | (rw [transO_some]; left; simp [Same]; done)
-    | exact transO_orElse' hw (transO_orElse' (hp _) hk)
-    | exact transO_orElse' (hp _) (transO_orElse' hw hk)
-    | exact transO_orElse' (hp _) (transO_orElse' hk hw)
+    | exact transO_orElse' (transO_orElse' (hw _) (transO_orElse' (hp _) hk)) (hr _)
+    | exact transO_orElse' (transO_orElse' (hp _) (transO_orElse' (hw _) hk)) (hr _)
+    | exact transO_orElse' (transO_orElse' (hp _) (transO_orElse' hk (hw _))) (hr _)
+    | exact transO_orElse' (hr _) (transO_orElse' (hw _) (transO_orElse' (hp _) hk))
+    | exact transO_orElse' (hr _) (transO_orElse' (hp _) (transO_orElse' (hw _) hk))
+    | exact transO_orElse' (hr _) (transO_orElse' (hp _) (transO_orElse' hk (hw _)))
 
 /-! ### the invariant -/
 
@@ -546,14 +553,14 @@ theorem inv_trans {S H : List Nat} {s s' : State} (h : Trans s s') (i : Inv S H 
   · exact inv_fin h hc i
 
 theorem inv_settle {S H : List Nat} (v n : Nat) (s : State) (i : Inv S H s) : Inv S H (settle v n s) := by
-  induction n generalizing s with
+  induction n generalizing v s with
   | zero => exact i
   | succ n ih =>
     unfold settle
     split
     · exact i
     · rename_i s' hp
-      exact ih s' (inv_trans (transO_progress v s i.nodup s' hp) i)
+      exact ih _ s' (inv_trans (transO_progress v s i.nodup s' hp) i)
 
 /-! ### the ops -/
 
